@@ -75,6 +75,23 @@ pub fn brotli_stored(data: &[u8]) -> Vec<u8> {
     w.out
 }
 
+/// The stream handed to the real C decoder for `data`: stored meta-blocks in the normal profiles; in the
+/// ASan slice (`enc::compress_mode()`) a stream compressed by the C encoder (quality / window from a hash of
+/// the data), against the raw shared dictionary `dict` when one is given. One in eight stays stored.
+pub fn brotli_real(data: &[u8], dict: Option<&[u8]>) -> Vec<u8> {
+    if crate::enc::compress_mode() {
+        let h = fnv64(data) ^ dict.map(|d| fnv64(d).rotate_left(9)).unwrap_or(0);
+        if h % 8 != 7 || dict.is_some() {
+            let q = [0u32, 1, 2, 4, 5, 9, 10, 11][(h >> 8) as usize % 8];
+            let lgwin = [10u32, 11, 14, 16, 18, 22, 24][(h >> 16) as usize % 7];
+            if let Some(v) = crate::enc::brotli_compress(data, dict, q, lgwin) {
+                return v;
+            }
+        }
+    }
+    brotli_stored(data)
+}
+
 // ---------------------------------------------------------------- decoders
 
 /// The real decoder, refusing (and noting) requests above 16 MiB.
@@ -401,7 +418,7 @@ pub fn glyph_keyed_patch(compat: &[u8; 16], wide: bool, payload: &[u8], max_len:
 }
 
 /// A table-keyed patch from a grammar.
-pub fn gen_table_keyed(rng: &mut Rng, compat: &[u8; 16], enc: &dyn Fn(&[u8]) -> Vec<u8>, shape: &mut String) -> Vec<u8> {
+pub fn gen_table_keyed(rng: &mut Rng, compat: &[u8; 16], enc: &dyn Fn(&[u8], Option<&[u8]>) -> Vec<u8>, shape: &mut String) -> Vec<u8> {
     let n = *rng.pick(&[0usize, 1, 2, 3, 5, 20]);
     shape.push_str(&format!("tablekeyed(n={});", n));
     let tags: [&[u8; 4]; 12] = [b"tab1", b"tab2", b"tab3", b"glyf", b"loca", b"head", b"maxp", b"IFT ", b"IFTX", b"zzzz", b"cmap", b"CFF "];
@@ -436,7 +453,14 @@ pub fn gen_table_keyed(rng: &mut Rng, compat: &[u8; 16], enc: &dyn Fn(&[u8]) -> 
         };
         tp.extend_from_slice(&ml.to_be_bytes());
         if flags & 2 == 0 || rng.bool() {
-            tp.extend(enc(&payload));
+            // a diff entry (flags 0) against the small test tables of base font kind 0 may really use the
+            // base table as shared dictionary (only the ASan slice's encoder looks at the hint)
+            let hint: Option<&[u8]> = match (flags & 1, &t[..]) {
+                (0, b"tab1") | (0, b"tab4") => Some(b"abcdef\n"),
+                (0, b"tab2") | (0, b"tab5") => Some(b"foobar\n"),
+                _ => None,
+            };
+            tp.extend(enc(&payload, hint));
         }
         patches.push(tp);
     }
@@ -779,7 +803,7 @@ pub fn make_patch(rng: &mut Rng, want: Want, compat: [u8; 16], shape: &mut Strin
             }
             let ml = if rng.chance(1, 8) { *rng.pick(&[0u32, (pl.len() as u32).wrapping_sub(1), 0xFFFFFFFF, MAX_DECODE as u32 + 1]) } else { pl.len() as u32 };
             shape.push_str("p=td-glyph-keyed;");
-            (glyph_keyed_patch(&compat, wide, &pl, ml, |d| d.to_vec()), glyph_keyed_patch(&compat, wide, &pl, ml, brotli_stored))
+            (glyph_keyed_patch(&compat, wide, &pl, ml, |d| d.to_vec()), glyph_keyed_patch(&compat, wide, &pl, ml, |d| brotli_real(d, None)))
         }
         4 | 5 => {
             let wide = rng.chance(1, 3);
@@ -787,12 +811,12 @@ pub fn make_patch(rng: &mut Rng, want: Want, compat: [u8; 16], shape: &mut Strin
             let pl = gen_glyph_patches(rng, wide, &mut s2);
             shape.push_str(&s2);
             let ml = if rng.chance(1, 8) { *rng.pick(&[0u32, 0xFFFFFFFF, 1 << 24]) } else { pl.len() as u32 };
-            (glyph_keyed_patch(&compat, wide, &pl, ml, |d| d.to_vec()), glyph_keyed_patch(&compat, wide, &pl, ml, brotli_stored))
+            (glyph_keyed_patch(&compat, wide, &pl, ml, |d| d.to_vec()), glyph_keyed_patch(&compat, wide, &pl, ml, |d| brotli_real(d, None)))
         }
         6 | 7 => {
             let mut s2 = String::new();
-            let a = gen_table_keyed(rng, &compat, &|d| d.to_vec(), &mut s2);
-            let b = gen_table_keyed(&mut r2, &compat, &|d| brotli_stored(d), &mut String::new());
+            let a = gen_table_keyed(rng, &compat, &|d, _| d.to_vec(), &mut s2);
+            let b = gen_table_keyed(&mut r2, &compat, &|d, dict| brotli_real(d, dict), &mut String::new());
             shape.push_str(&s2);
             (a, b)
         }
@@ -821,6 +845,43 @@ pub fn make_patch(rng: &mut Rng, want: Want, compat: [u8; 16], shape: &mut Strin
         mutate_bytes(&mut b, &mut r3, &mut String::new());
     }
     (a, b)
+}
+
+/// ASan slice: damage the part of a patch that holds compressed data.
+fn corrupt_tail(p: &mut Vec<u8>, rng: &mut Rng) -> &'static str {
+    let from = if p.starts_with(b"ifgk") { 29 } else { 40 };
+    if p.len() <= from + 1 {
+        return "too-short";
+    }
+    let n = p.len() - from;
+    match rng.below(5) {
+        0 | 1 => {
+            for _ in 0..1 + rng.usize(3) {
+                let pos = from + rng.usize(n);
+                p[pos] ^= 1 << rng.usize(8);
+            }
+            "bitflip"
+        }
+        2 => {
+            let cut = from + rng.usize(n);
+            p.truncate(cut);
+            "truncate"
+        }
+        3 => {
+            let pos = from + rng.usize(n);
+            let k = (1 + rng.usize(8)).min(p.len() - pos);
+            for b in &mut p[pos..pos + k] {
+                *b = 0xFF;
+            }
+            "overwrite"
+        }
+        _ => {
+            let k = 1 + rng.usize(8);
+            let extra = rng.bytes(k);
+            p.extend(extra);
+            "append"
+        }
+    }
 }
 
 // ---------------------------------------------------------------- running
@@ -876,8 +937,13 @@ fn patch_map(t: &Tuple, uris: &[String], wants: &HashMap<String, (Want, [u8; 16]
             _ => (Want::Any, *rng.pick(&[t.compat_a, t.compat_b, [9u8; 16]])),
         };
         let mut s = String::new();
-        let (raw, brs) = make_patch(&mut rng, want, compat, &mut s);
+        let (raw, mut brs) = make_patch(&mut rng, want, compat, &mut s);
         st.count("ift_patches_generated", 1);
+        if br && crate::enc::compress_mode() && rng.chance(1, 3) {
+            // ASan slice: damage the compressed stream area (behind the fixed-size headers)
+            let k = corrupt_tail(&mut brs, &mut rng);
+            st.count(&format!("ift_asan_stream_damage:{k}"), 1);
+        }
         m.insert(u.clone(), UriStatus::Pending(if br { brs } else { raw }));
     }
     m
@@ -1009,6 +1075,11 @@ fn lengths_sane(p: &[u8]) -> bool {
 }
 
 pub fn run_item(ctx: &mut Ctx, i: usize, seed: u64) {
+    run_item_with(ctx, i, seed, false)
+}
+
+/// `real_only`: only the decoders that reach the real C brotli decoder (capped wrapper and the default API).
+pub fn run_item_with(ctx: &mut Ctx, i: usize, seed: u64, real_only: bool) {
     let t = gen_tuple(i, seed);
     ctx.count("ift_tuples", 1);
     let case_json = json!({"ift_item": i, "ift_seed": seed.to_string(), "shape": t.shape});
@@ -1020,10 +1091,13 @@ pub fn run_item(ctx: &mut Ctx, i: usize, seed: u64) {
     if rng.chance(1, 3) {
         decs.push(2 + rng.below(N_FAULT_MODES as u64) as u8);
     }
+    if real_only {
+        decs = vec![1];
+    }
     let mut answered = false;
     let mut opened = false;
     // case A: intersection + uri expansion
-    {
+    if !real_only {
         ctx.eval();
         let st = RefCell::new(IStats::default());
         let label = || format!("ift#{}|{}|intersect|{}|0|0|", i, seed, seed);
@@ -1126,6 +1200,38 @@ fn encoder_selfcheck(ctx: &mut Ctx) {
             Ok(Ok(d)) if d == data => ctx.count("ift_encoder_selfcheck_ok", 1),
             other => ctx.inconclusive(format!("stored-brotli encoder self-check failed: {:?}", other.map(|r| r.map(|v| v.len())).map_err(|p| p.msg))),
         }
+    }
+}
+
+/// ASan slice (profile "asan"): the same tuples, patches generated with genuinely compressed streams
+/// (some damaged), applied only through the real C decoder.
+pub fn sec_ift_asan(ctx: &mut Ctx, items: &mut Items) {
+    use crate::enc;
+    enc::set_compress_mode(true);
+    // harness sanity: encoder wrapper and decoder agree
+    let mut rng = Rng::derive(1, "c02-asan-selfcheck", 0);
+    let base = enc::structured_bytes(&mut rng, 4000, None);
+    for (len, with_dict, q, w) in [(0usize, false, 5u32, 16u32), (1, false, 0, 10), (300, true, 11, 22), (70_000, true, 1, 10), (150_000, false, 9, 24)] {
+        let dict = with_dict.then_some(&base[..]);
+        let plain = enc::structured_bytes(&mut rng, len, dict);
+        let ok = match enc::brotli_compress(&plain, dict, q, w) {
+            Some(st) => matches!(vf_core::guard(|| BuiltInBrotliDecoder.decode(&st, dict, len)), Ok(Ok(v)) if v == plain),
+            None => false,
+        };
+        if ok {
+            ctx.count("ift_asan_encoder_selfcheck_ok", 1);
+        } else {
+            ctx.inconclusive(format!("harness: C brotli encoder self-check failed (len={len} q={q} lgwin={w})"));
+            return;
+        }
+    }
+    let n = ctx.budget(8_000, 100_000);
+    let seed = ctx.seed;
+    for i in 0..n {
+        if !items.mine(ctx) {
+            continue;
+        }
+        run_item_with(ctx, i, seed, true);
     }
 }
 
